@@ -90,6 +90,9 @@ func (vm *VM) FindModuleByName(name string) *Module {
 func (vm *VM) CheckDepedency(name string) error {
 	moduleID, exists := vm.moduleGraph.GetIDFromName(name)
 	if exists {
+		// record the import edge: importing a module that already exists (e.g. one that is
+		// still being loaded) adds no edge elsewhere, and that edge is what closes a cycle
+		vm.moduleGraph.AddDependency(vm.csModuleID, name, moduleID)
 		// check circular dependency
 		if vm.moduleGraph.CheckCircularDepedency(vm.csModuleID, moduleID) {
 			return zerr.ModuleCircularDependency()
